@@ -69,6 +69,7 @@ type tScenario struct {
 	Grace     int64          `json:"grace"`
 	Readers   bool           `json:"readers"`
 	Alt       int            `json:"alt"`
+	NoCtx     bool           `json:"noctx"` // the executions run one after the other on ONE executor, without WithContext
 }
 
 var errCoop = &coopErr{}
@@ -127,6 +128,7 @@ func runTScenario(t *testing.T, raw []byte) (lines []M, problem string) {
 	delete(cfgAny, "grace")
 	delete(cfgAny, "readers")
 	delete(cfgAny, "alt")
+	delete(cfgAny, "noctx")
 	func() {
 		defer func() {
 			if r := recover(); r != nil {
@@ -140,7 +142,7 @@ func runTScenario(t *testing.T, raw []byte) (lines []M, problem string) {
 			calls := make([]int, sc.Nx+1)
 			callExecs := make([][]failsafe.Execution[string], sc.Nx+1) // the execution each invocation was given (kept to look at its context afterwards)
 			fn := func(exec failsafe.Execution[string]) (string, error) {
-				x := xOf(exec.Context())
+				x := rec.xOf(exec.Context())
 				rec.mu.Lock()
 				calls[x]++
 				k := calls[x]
@@ -233,6 +235,7 @@ func runTScenario(t *testing.T, raw []byte) (lines []M, problem string) {
 				rec.tline(M{"ev": "CancelRet", "x": x}, nil)
 			}
 			var wg sync.WaitGroup
+			var sharedEx failsafe.Executor[string]
 			for _, e := range sc.Env {
 				if d := time.Duration(e.At)*unit - time.Since(rec.t0); d > 0 {
 					time.Sleep(d)
@@ -270,6 +273,21 @@ func runTScenario(t *testing.T, raw []byte) (lines []M, problem string) {
 						ex = ex.WithContext(ctx).WithContext(nil)
 					}
 					x := e.X
+					if sc.NoCtx {
+						// one executor for every execution of the scenario, no context of its own per execution
+						if sharedEx == nil {
+							sharedEx = failsafe.NewExecutor[string](bs.policies...).
+								OnSuccess(func(ev failsafe.ExecutionDoneEvent[string]) {
+									rec.info("ExecOnSuccess", 0, ev, ev.Result, ev.Error, nil)
+								}).
+								OnFailure(func(ev failsafe.ExecutionDoneEvent[string]) {
+									rec.info("ExecOnFailure", 0, ev, ev.Result, ev.Error, nil)
+								}).
+								OnDone(func(ev failsafe.ExecutionDoneEvent[string]) { rec.info("ExecOnDone", 0, ev, ev.Result, ev.Error, nil) })
+						}
+						ex = sharedEx
+						rec.curX.Store(int32(x))
+					}
 					rec.tline(M{"ev": "Start", "x": x}, nil)
 					wg.Add(1)
 					if e.Async {
